@@ -139,12 +139,9 @@ class Network:
                 # This is a new address, or our previous parent has been removed
                 self._all_addresses[address] = WalkableAddress(peer.public_key.key_to_bin(), service, new_style)
                 intro_cache = self.reverse_intro_lookup.get(peer, None)
-                if intro_cache:
+                if intro_cache is not None:
+                    # Only extend a cached list: a new entry would lack the earlier introductions of this peer.
                     intro_cache.append(address)
-                else:
-                    self.reverse_intro_lookup[peer] = [address]
-                    if len(self.reverse_intro_lookup) > self.reverse_intro_cache_size:
-                        self.reverse_intro_lookup.popitem(False)  # Pop the oldest cache entry
 
             self.add_verified_peer(peer)
 
